@@ -54,6 +54,8 @@ pub struct LifeWorld {
     pub funder: Pubkey,
     pub receiver: Pubkey,
     pub pools: [PoolRef; 2],
+    /// a third pool of the same config and mint pair with tick spacing 1: only ever passed as a FOREIGN pool
+    pub fine: PoolRef,
     pub owners: [Pubkey; 2],
     /// [owner][pool]
     pub wallets: [[Wallet; 2]; 2],
@@ -89,6 +91,7 @@ pub fn build_world(label: &str) -> (Ledger, LifeWorld) {
     l.put_system(receiver, 1_000_000);
     world::must("fee tier 64", svm::process(&mut l, &world::ix_init_fee_tier(&cfg, funder, 64, 3000)));
     world::must("fee tier 32768", svm::process(&mut l, &world::ix_init_fee_tier(&cfg, funder, 32768, 10000)));
+    world::must("fee tier 1", svm::process(&mut l, &world::ix_init_fee_tier(&cfg, funder, 1, 100)));
     let (m1, m2) = (key(&format!("{lab}/mint1")), key(&format!("{lab}/mint2")));
     let (ma, mb) = if m1 < m2 { (m1, m2) } else { (m2, m1) };
     world::create_spl_mint(&mut l, ma, 6, None);
@@ -98,6 +101,8 @@ pub fn build_world(label: &str) -> (Ledger, LifeWorld) {
     let p0 = 1u128 << 64;
     world::must("init main", svm::process(&mut l, &world::ix_init_pool_v1(&main, funder, p0)));
     world::must("init fro", svm::process(&mut l, &world::ix_init_pool_v1(&fro, funder, p0)));
+    let fine = world::pool_ref(&l, &cfg.addr, &format!("{lab}/fine"), ma, mb, 1, 1);
+    world::must("init fine", svm::process(&mut l, &world::ix_init_pool_v1(&fine, funder, p0)));
     let mut arrays = vec![];
     for (off, dynamic) in [(-1, true), (0, false), (1, true)] {
         let start = off * main.ticks_in_array();
@@ -151,6 +156,7 @@ pub fn build_world(label: &str) -> (Ledger, LifeWorld) {
         funder,
         receiver,
         pools: [main, fro],
+        fine,
         owners,
         wallets: [wa_, wb_],
         trader,
@@ -321,6 +327,17 @@ pub fn ix_reset(w: &LifeWorld, pos: &PosRef, lower: i32, upper: i32) -> Instruct
         .to_account_metas(None),
         wi::ResetPositionRange { new_tick_lower_index: lower, new_tick_upper_index: upper }.data(),
     )
+}
+
+/// reset_position_range naming ANOTHER pool than the position's own in the whirlpool slot
+pub fn ix_reset_with_pool(w: &LifeWorld, pos: &PosRef, pool: Pubkey, lower: i32, upper: i32) -> Instruction {
+    let mut i = ix_reset(w, pos, lower, upper);
+    for m in i.accounts.iter_mut() {
+        if m.pubkey == pos.pool.addr {
+            m.pubkey = pool;
+        }
+    }
+    i
 }
 
 pub fn ix_lock(w: &LifeWorld, pos: &PosRef, lock_cfg: Pubkey) -> Instruction {
